@@ -234,6 +234,7 @@ impl<F: RichField + Extendable<D>, const D: usize, const N: usize, const DEG: us
             let mut c = n[i] - l[i] - P::Scalar::from_canonical_usize(i + 1);
             if DEG >= 2 { c = c * l[i]; }
             if DEG >= 3 { c = c * n[i]; }
+            for _ in 3..DEG { c = c * l[i]; }
             yield_constr.constraint_transition(c);
         }
         yield_constr.constraint_last_row(l[N - 1] - pi[1]);
@@ -248,6 +249,7 @@ impl<F: RichField + Extendable<D>, const D: usize, const N: usize, const DEG: us
             let mut c = builder.sub_extension(t, s);
             if DEG >= 2 { c = builder.mul_extension(c, l[i]); }
             if DEG >= 3 { c = builder.mul_extension(c, n[i]); }
+            for _ in 3..DEG { c = builder.mul_extension(c, l[i]); }
             yield_constr.constraint_transition(builder, c);
         }
         let c = builder.sub_extension(l[N - 1], pi[1]); yield_constr.constraint_last_row(builder, c);
@@ -256,11 +258,19 @@ impl<F: RichField + Extendable<D>, const D: usize, const N: usize, const DEG: us
     fn constraint_degree(&self) -> usize { DEG }
 }
 
-fn ctr_battery<const N: usize, const DEG: usize>(bad: &mut Vec<String>, cases: &mut usize) {
-    let config = StarkConfig::standard_fast_config();
+fn ctr_battery<const N: usize, const DEG: usize>(bad: &mut Vec<String>, cases: &mut usize) { ctr_battery_cfg::<N, DEG>(StarkConfig::standard_fast_config(), bad, cases) }
+
+// blowup 2^rate_bits admits constraint degrees up to 2^rate_bits + 1; the quotient is split into max(1, DEG - 1) chunks, which is not a power of two for DEG in {4, 6, 7, 8}
+fn cfg_rate(rate_bits: usize) -> StarkConfig {
+    let mut c = StarkConfig::standard_fast_config();
+    c.fri_config.rate_bits = rate_bits; c.fri_config.num_query_rounds = 84usize.div_ceil(rate_bits);
+    c
+}
+
+fn ctr_battery_cfg<const N: usize, const DEG: usize>(config: StarkConfig, bad: &mut Vec<String>, cases: &mut usize) {
     let stark = Ctr::<F, D, N, DEG> { _p: PhantomData };
     for rows_n in [16usize, 128] {
-        let tag = format!("counter STARK with {N} columns, degree {DEG}, {rows_n} rows");
+        let tag = format!("counter STARK with {N} columns, degree {DEG}, rate_bits {}, {rows_n} rows", config.fri_config.rate_bits);
         let start = F::from_canonical_u64(1000);
         let rows: Vec<[F; N]> = (0..rows_n).map(|r| { let mut row = [F::ZERO; N]; for i in 0..N { row[i] = start + F::from_canonical_usize(i + r * (i + 1)); } row }).collect();
         let pis = [rows[0][0], rows[rows_n - 1][N - 1]];
@@ -308,6 +318,15 @@ fn c09_widths_and_degrees() {
     ctr_battery::<17, 1>(&mut bad, &mut cases);
     ctr_battery::<24, 3>(&mut bad, &mut cases);
     ctr_battery::<40, 2>(&mut bad, &mut cases);
+    // higher blowups: every constraint degree the blowup admits, including those with a quotient split into 3, 5, 6, 7 chunks
+    ctr_battery_cfg::<3, 2>(cfg_rate(2), &mut bad, &mut cases);
+    ctr_battery_cfg::<3, 4>(cfg_rate(2), &mut bad, &mut cases);
+    ctr_battery_cfg::<2, 5>(cfg_rate(2), &mut bad, &mut cases);
+    ctr_battery_cfg::<2, 3>(cfg_rate(3), &mut bad, &mut cases);
+    ctr_battery_cfg::<2, 6>(cfg_rate(3), &mut bad, &mut cases);
+    ctr_battery_cfg::<3, 7>(cfg_rate(3), &mut bad, &mut cases);
+    ctr_battery_cfg::<2, 8>(cfg_rate(3), &mut bad, &mut cases);
+    ctr_battery_cfg::<2, 9>(cfg_rate(3), &mut bad, &mut cases);
     // Fibonacci: simultaneous errors in both first-row statements (they must not cancel), and in first + last row
     let config = StarkConfig::standard_fast_config();
     for n in [8usize, 64] {
@@ -398,7 +417,7 @@ fn c04_stark_transcript() {
 // and tries to answer the opening point zeta with degree-one "quotients" t_j(X) = a_j + b_j X chosen so that vanishing_j(zeta) == Z_H(zeta) t_j(zeta).
 // That only works if it learns zeta BEFORE it must commit to the quotient; it therefore omits the quotient commitment from the proof.
 // Whatever the proving API can be made to emit for a false statement must not be accepted.
-fn cheating_stark_proof(stark: Fib<F, D>, config: &StarkConfig, trace: Vec<PolynomialValues<F>>, public_inputs: &[F], send_quotient_cap: bool) -> StarkProofWithPublicInputs<F, C, D> {
+fn cheating_stark_proof(stark: Fib<F, D>, config: &StarkConfig, trace: Vec<PolynomialValues<F>>, public_inputs: &[F], mode: u8) -> StarkProofWithPublicInputs<F, C, D> {
     use core::iter::successors;
     use plonky2::field::polynomial::PolynomialCoeffs;
     use plonky2::fri::oracle::PolynomialBatch;
@@ -432,7 +451,20 @@ fn cheating_stark_proof(stark: Fib<F, D>, config: &StarkConfig, trace: Vec<Polyn
     let bound = compute_eval_vanishing_poly::<F, Fib<F, D>, D>(&stark, &dummy_openings, None, None, &[], public_inputs, alphas_prime, zeta_prime, degree_bits, 0);
     challenger.observe_extension_elements::<D>(&bound);
     let alphas = challenger.get_n_challenges(nc);
-    // the cheat: squeeze the next challenge and bet that it is the opening point
+    // mode 3: commit to all-zero "quotients" in the honest transcript order and withhold their openings (the verifier's vanishing check would then range over nothing)
+    if mode == 3 {
+        let zero_polys = (0..stark.num_quotient_polys(config)).map(|_| PolynomialCoeffs::new(vec![F::ZERO; degree])).collect::<Vec<_>>();
+        let quotient_commitment = PolynomialBatch::<F, C, D>::from_coeffs(zero_polys, rate_bits, false, cap_height, &mut timing, None);
+        challenger.observe_cap(&quotient_commitment.merkle_tree.cap);
+        let zeta = challenger.get_extension_challenge::<D>();
+        let mut openings = StarkOpeningSet::<F, D>::new::<C>(zeta, g, &trace_commitment, None, Some(&quotient_commitment), 0, false, &[]);
+        openings.quotient_polys = None;
+        challenger.observe_openings(&openings.to_fri_openings());
+        let opening_proof = PolynomialBatch::<F, C, D>::prove_openings(&stark.fri_instance(zeta, g, 0, vec![], config), &[&trace_commitment, &quotient_commitment], &mut challenger, &fri_params, None, None, &mut timing);
+        return StarkProofWithPublicInputs { proof: StarkProof { trace_cap: trace_commitment.merkle_tree.cap.clone(), auxiliary_polys_cap: None,
+            quotient_polys_cap: Some(quotient_commitment.merkle_tree.cap.clone()), openings, opening_proof }, public_inputs: public_inputs.to_vec() };
+    }
+    // modes 0-2, the cheat: squeeze the next challenge and bet that it is the opening point
     let zeta = challenger.get_extension_challenge::<D>();
     let trace_openings = StarkOpeningSet::<F, D>::new::<C>(zeta, g, &trace_commitment, None, None, 0, false, &[]);
     let (l_0, l_last) = eval_l_0_and_l_last(degree_bits, zeta);
@@ -452,11 +484,13 @@ fn cheating_stark_proof(stark: Fib<F, D>, config: &StarkConfig, trace: Vec<Polyn
         PolynomialCoeffs::new(coeffs)
     }).collect::<Vec<_>>();
     let quotient_commitment = PolynomialBatch::<F, C, D>::from_coeffs(quotient_polys, rate_bits, false, cap_height, &mut timing, None);
+    // mode 2: the quotient commitment enters the transcript only AFTER the bet (what a transcript that squeezes zeta too early would look like)
+    if mode == 2 { challenger.observe_cap(&quotient_commitment.merkle_tree.cap); }
     let openings = StarkOpeningSet::<F, D>::new::<C>(zeta, g, &trace_commitment, None, Some(&quotient_commitment), 0, false, &[]);
     challenger.observe_openings(&openings.to_fri_openings());
     let opening_proof = PolynomialBatch::<F, C, D>::prove_openings(&stark.fri_instance(zeta, g, 0, vec![], config), &[&trace_commitment, &quotient_commitment], &mut challenger, &fri_params, None, None, &mut timing);
     StarkProofWithPublicInputs { proof: StarkProof { trace_cap: trace_commitment.merkle_tree.cap.clone(), auxiliary_polys_cap: None,
-        quotient_polys_cap: if send_quotient_cap { Some(quotient_commitment.merkle_tree.cap.clone()) } else { None }, openings, opening_proof }, public_inputs: public_inputs.to_vec() }
+        quotient_polys_cap: if mode >= 1 { Some(quotient_commitment.merkle_tree.cap.clone()) } else { None }, openings, opening_proof }, public_inputs: public_inputs.to_vec() }
 }
 
 #[test]
@@ -473,11 +507,13 @@ fn c09_cheating_prover() {
             let mut r2 = rows.clone();
             if let Some(c) = cell { r2[c][0] += F::from_canonical_u64(12345); }
             let pis = [F::ZERO, F::ONE, res + dres];
-            for send_cap in [false, true] {
+            for mode in 0u8..4 {
                 cases += 1;
                 let t = trace_rows_to_poly_values(r2.clone());
-                match catch_unwind(AssertUnwindSafe(|| cheating_stark_proof(stark, &config, t, &pis, send_cap))) {
-                    Ok(p) => { let v = verdict(stark, p, &config); if v != "rejected" { bad.push(format!("{n} rows, {what}: proof of a prover that ignores the constraints ({} quotient commitment) -> {v}", if send_cap { "with" } else { "without" })); } }
+                let how = ["degree-one quotients fitted to a guessed zeta, no quotient commitment sent", "degree-one quotients fitted to a guessed zeta, commitment sent but not absorbed",
+                           "degree-one quotients fitted to a zeta squeezed before the quotient commitment is absorbed", "all-zero quotient polynomials committed, their openings withheld"][mode as usize];
+                match catch_unwind(AssertUnwindSafe(|| cheating_stark_proof(stark, &config, t, &pis, mode))) {
+                    Ok(p) => { let v = verdict(stark, p, &config); if v != "rejected" { bad.push(format!("{n} rows, {what}: proof of a prover that ignores the constraints ({how}) -> {v}")); } }
                     Err(_) => {}   // the cheating strategy itself broke down: nothing was emitted
                 }
             }
